@@ -15,7 +15,9 @@ import (
 	"google.golang.org/grpc/status"
 	"pgregory.net/rapid"
 
+	"verif/harness/internal/casfmt"
 	"verif/harness/internal/cl"
+	"verif/harness/internal/fproxy"
 	"verif/harness/internal/ev"
 	"verif/harness/internal/gen"
 	"verif/harness/internal/rt"
@@ -76,7 +78,16 @@ func TestC16Write(t *testing.T) {
 	E.SetRule("rapid draws blob × storage × {identity, zstd} upload × chunking (random cuts, empty messages, 1-byte messages) × finish_write placement (last / absent / early) × resource name (REAPI-conformant instance prefix incl. segments that contain but are not reserved words, arbitrary uuid segment, optional trailing metadata) × later-message name {empty, same, different} × first write_offset {0, !=0} × byte count {exact, fewer, more} × unparsable names × blob present beforehand or not (then also: only the first message is sent and never half-closed); QueryWriteStatus before and after. Oracle = the statement as a decision table on status / committed_size / presence. non-trivial: >=3 messages, or a protocol fault, or a pre-existing blob; distinct by (encoding, fault, present, chunk class, name shape, finish)")
 	rt.Check(t, rt.N(700, 5000), func(t *rapid.T) {
 		storage := rapid.SampledFrom([]string{"zstd", "uncompressed"}).Draw(t, "storage")
-		s, err := stack.New(stack.Opts{Storage: storage})
+		// one case in three runs in front of a backend; "present" then also means
+		// "held by the backend only" (with or without the backend knowing sizes)
+		var px *fproxy.Proxy
+		o := stack.Opts{Storage: storage}
+		if rapid.IntRange(0, 2).Draw(t, "withBackend") == 0 {
+			px = fproxy.New()
+			px.ContainsSizeUnknown = rapid.Bool().Draw(t, "backendSizeUnknown")
+			o.Proxy = px
+		}
+		s, err := stack.New(o)
 		if err != nil {
 			t.Fatal(err)
 		}
@@ -87,10 +98,23 @@ func TestC16Write(t *testing.T) {
 		}
 		z := rapid.Bool().Draw(t, "zstd")
 		present := rapid.IntRange(0, 3).Draw(t, "present") == 0 || b.Size == 0
+		where := "-"
 		if present && b.Size > 0 {
-			if err := s.Cache.Put(context.Background(), cache.CAS, b.Hash, b.Size, bytes.NewReader(b.Data)); err != nil {
+			where = "local"
+			if px != nil && rapid.Bool().Draw(t, "backendOnly") {
+				where = "backend-only"
+				st := b.Data
+				if storage == "zstd" {
+					st = casfmt.Encode(b.Data, gen.Chunk, func(x []byte) []byte { return gen.ZstdGo(x, 1, false) })
+				}
+				px.Set(cache.CAS, b.Hash, fproxy.Obj{Stored: st, Logical: b.Size})
+				if px.ContainsSizeUnknown {
+					where = "backend-only-size-unknown"
+				}
+			} else if err := s.Cache.Put(context.Background(), cache.CAS, b.Hash, b.Size, bytes.NewReader(b.Data)); err != nil {
 				t.Fatal(err)
 			}
+			E.Label("present-where=" + where)
 		}
 		inst := rapid.SampledFrom(instances).Draw(t, "instance")
 		uuid := rapid.SampledFrom(uuids).Draw(t, "uuid")
@@ -154,6 +178,12 @@ func TestC16Write(t *testing.T) {
 				cuts = append(cuts, rapid.IntRange(0, len(T)).Draw(t, "cut"))
 			}
 		}
+		boundary := -1
+		if fault == "more" && rapid.Bool().Draw(t, "cutAtDeclaredEnd") {
+			// a message boundary exactly where the declared bytes end
+			boundary = len(payload)
+			cuts = append(cuts, boundary)
+		}
 		sortInts(cuts)
 		finish := rapid.SampledFrom([]string{"last", "last", "last", "absent"}).Draw(t, "finish")
 		msgs := cl.Chunked(name, T, cuts, finish == "last")
@@ -196,6 +226,14 @@ func TestC16Write(t *testing.T) {
 		// occasionally sprinkle empty messages (allowed by the protocol)
 		if rapid.IntRange(0, 3).Draw(t, "emptyMsgs") == 0 && fault != "rename" {
 			k := rapid.IntRange(0, len(msgs)).Draw(t, "emptyAt")
+			if boundary >= 0 && rapid.Bool().Draw(t, "emptyAtDeclaredEnd") {
+				for i := range msgs {
+					if msgs[i].Offset == int64(boundary) && len(msgs[i].Data) > 0 {
+						k = i
+						E.Label("more:empty-message-at-declared-end")
+					}
+				}
+			}
 			var off int64
 			if k < len(msgs) {
 				off = msgs[k].Offset
@@ -230,7 +268,7 @@ func TestC16Write(t *testing.T) {
 		E.Case(fmt.Sprintf("%v|%s|%v|%s|%s|%s", z, fault, present, chunkCls, nameShape, finish), nontrivial,
 			fmt.Sprintf("zstd=%v", z), "fault="+fault, fmt.Sprintf("present=%v", present), "msgs="+chunkCls, "finish="+finish, "storage="+storage, "size="+b.SizeCls)
 		E.Sample(fault+fmt.Sprint(present), map[string]any{"name": name, "zstd": z, "fault": fault, "present": present, "messages": len(msgs), "payload_bytes": len(T), "blob_size": b.Size, "finish": finish})
-		ctxs := fmt.Sprintf("name=%q zstd=%v fault=%s present=%v msgs=%d payload=%d blob=%d finish=%s storage=%s", name, z, fault, present, len(msgs), len(T), b.Size, finish, storage)
+		ctxs := fmt.Sprintf("name=%q zstd=%v fault=%s present=%v(%s) msgs=%d payload=%d blob=%d finish=%s storage=%s", name, z, fault, present, where, len(msgs), len(T), b.Size, finish, storage)
 
 		goodName := cl.WriteName(inst, uuid, b.Hash, b.Size, z, meta)
 		// QueryWriteStatus before
